@@ -38,6 +38,12 @@ let fam_br (t : string array) : string =
   | "probe" ->
     (match serialized_length_from_bytes (bytes_of_hex t.(1)) with
      | Err.Ok n -> "ok " ^ dec_of_n n | Err.Err e -> "err " ^ Util.err_name e)
+  | "ser" ->
+    (match SerBR.node_to_bytes_backrefs Sha256.sha256 (Util.parse_tree t.(1)) with
+     | Err.Ok b -> "ok " ^ Util.digest b | Err.Err e -> "err " ^ Util.err_name e)
+  | "serl" ->
+    (match SerBR.node_to_bytes_backrefs_limit Sha256.sha256 (Util.parse_tree t.(2)) (n_of_dec t.(1)) with
+     | Err.Ok b -> "ok " ^ Util.digest b | Err.Err e -> "err " ^ Util.err_name e)
   | _ -> "skip"
 
 let () = Reg.register "br" fam_br
